@@ -32,9 +32,7 @@ func (m *Map[K, V]) LoadOrStoreFn(key K, f func() V) (V, bool) {
 	if v, loaded := m.Load(key); loaded {
 		return v, true
 	}
-	v := f()
-	m.m.Store(key, v)
-	return v, false
+	return m.LoadOrStore(key, f())
 }
 
 func (m *Map[K, V]) Delete(key K) {
